@@ -26,6 +26,7 @@ pub(crate) enum OutputStateChange {
 /// A `Story` is the core struct representing a complete Ink narrative,
 /// managing evaluation and state.
 pub struct Story {
+    ink_version: i32,
     main_content_container: Rc<Container>,
     state: StoryState,
     temporary_evaluation_container: Option<Rc<Container>>,
@@ -67,6 +68,7 @@ mod misc {
                 };
 
             let mut story = Story {
+                ink_version: version,
                 main_content_container: main_content_container.clone(),
                 state: StoryState::new(main_content_container.clone(), list_definitions.clone()),
                 temporary_evaluation_container: None,
@@ -85,12 +87,17 @@ mod misc {
             };
 
             story.reset_globals()?;
-
-            if version != INK_VERSION_CURRENT {
-                story.add_error(&format!("WARNING: Version of ink used to build story ({}) doesn't match current version ({}) of engine. Non-critical, but recommend synchronising.", version, INK_VERSION_CURRENT), true);
-            }
+            story.warn_if_ink_version_differs();
 
             Ok(story)
+        }
+
+        // The warning lives in the story state, so it has to be recorded
+        // again whenever a brand new state is created.
+        pub(crate) fn warn_if_ink_version_differs(&mut self) {
+            if self.ink_version != INK_VERSION_CURRENT {
+                self.add_error(&format!("WARNING: Version of ink used to build story ({}) doesn't match current version ({}) of engine. Non-critical, but recommend synchronising.", self.ink_version, INK_VERSION_CURRENT), true);
+            }
         }
 
         /// Creates a string representing the hierarchy of objects and
